@@ -24,6 +24,12 @@ CHECKS = {
   text='Every ordered pair of small encodings (sign x significand x exponent, so each value occurs in many redundant encodings, zeros with every exponent, -0, infinities, NaN) of RealFloat and Float, crossed with ints, floats (incl. +-0.0, inf, nan, subnormals, 2^+-1000) and Fractions (dyadic and not), is pushed through +, -, *, **, neg, pos, abs, the six comparisons (both operand orders, native on the left too), compare(), hash, int(), float(), as_rational, split, normalize, is_more_significant, bit and the from_* constructors; each result is compared with the same operation on the denotations. Exhaustive on the stated window, wide values sampled.',
   ref='DESIGN.md 2/C05',
   note='Trusted: Fraction arithmetic and the IEEE 754 tables written in vf/checks/c05.py. The sign of a zero result that depends on the sign of an int/Fraction zero operand is left open (such operands carry no sign). RealFloat.compare(Float) is outside its declared domain and not called.'),
+ 'C17': dict(
+  technique='scripted random source: full enumeration of all 2^k draws per operand, counted against the oracle offset; call-count/width monitor on the generator object',
+  category='exploration',
+  text='The context\'s rng is a scripted generator object (a random.Random subclass and a numpy-Generator-like stub, alternating) that returns each k-bit value in turn and records every request. For each operand at every multiple of 2^-(k+2) of several gaps (gap above zero / subnormal, a middle gap, the last gap below the largest value, the overflow gap) in both signs, all 2^k draws are executed: each result must be one of the two neighbours given by the independent oracle, a representable operand must come back unchanged, the same bits must give the same result, the number of draws leaving the lower neighbour must equal the offset in units of 2^-k rounded by the context\'s mode, and exactly one request of width k must reach the generator. k in 1..3 (quick) / 1..5 (thorough) and None, 8 base modes, families MPFloat, MPSFloat, MPBFloat, IEEE, EFloat, MPFixed, MPBFixed, Fixed, SMFixed.',
+  ref='DESIGN.md 2/C17',
+  note='Trusted: neighbours from vf/oracle/rnd.py on the deterministic twin context. In the gap above the largest value only membership and determinism are judged (where "up" goes is the overflow policy). With num_randbits=None the width is learnt from the request itself and must cover all operand bits.'),
 }
 
 NOT_YET = {}
